@@ -34,7 +34,11 @@ def plan(tier, seed):
     return specs
 
 
-BIG = [("CT14.Pi", {"param_identifier_size": 16}, [[32768, 1], [8192] * 4 + [1]]),
+BIG = [("CJJ14.PiPtr", {"param_B": 2, "param_b": 64, "param_identifier_size": 8},
+        # more than 256 array cells: pointers need two bytes
+        # (both profiles: 300 identifier blocks and 150 pointer blocks)
+        [[4] * 150, [6] * 75 + [2] * 75]),
+       ("CT14.Pi", {"param_identifier_size": 16}, [[32768, 1], [8192] * 4 + [1]]),
        ("ANSS16.Scheme3", {"param_identifier_size": 16}, [[20000, 3000, 1], [10000, 10000, 3001]]),
        ("DP17.Pi", {"param_identifier_size": 16, "param_L": 2}, [[20000, 5], [5000] * 4 + [5]]),
        ("CJJ14.PiBas", {}, [[30000], [10000] * 3])]
